@@ -202,6 +202,11 @@ def main(tier, replay=None):
     rng = random.Random(vlib.seed() * 1000 + 17)
     n = 2000 if tier == "quick" else 100000
     stages = [gen_stage(rng) for _ in range(n)]
+    # two stages whose definition is far longer than any buffer (1400 / 2500 artifacts, about 80 / 150 KiB of definition): the edits
+    # of the pair stream below fall at the very end of it (a late-sorting output added, the flag of the last output, the command)
+    for k_, cnt_ in enumerate((1400, 2500)):
+        stages.insert(k_, dict(cmd="make all  # %d outputs" % cnt_, wd="work", sum="", i=[("in/%05d.csv" % j, "-", "") for j in range(40)],
+                               o=[("out/part-%05d.bin" % j, ["-", "d", "dr"][j % 3], "") for j in range(cnt_)][::-1]))
     if replay:
         stages = json.load(open(replay)).get("stages", stages)
     lines = [line(s) for s in stages]
@@ -251,6 +256,13 @@ def main(tier, replay=None):
         nf = {"-": "d", "d": "dr", "dr": "d", "s": "-", "ds": "d"}[f]
         v4 = dict(st, o=[(p, nf, s)] + st["o"][1:]); pairs.append((base, v4)); kinds.append("flag")
         v5 = dict(st, o=st["o"] + [("zz_added_output", "-", "")]); pairs.append((base, v5)); kinds.append("add")
+        if len(st["o"]) > 100:
+            # long definitions: edits that fall at the END of the (sorted) definition
+            so_ = sorted(st["o"])
+            pl_, fl_, sl_ = so_[-1]
+            v7 = dict(st, o=[x for x in st["o"] if x[0] != pl_] + [(pl_, {"-": "d", "d": "dr", "dr": "d"}[fl_], sl_)]); pairs.append((base, v7)); kinds.append("flag")
+            v8 = dict(st, o=[x for x in st["o"] if x[0] != pl_]); pairs.append((base, v8)); kinds.append("add")
+            v9 = dict(st, o=[x for x in st["o"] if x[0] != pl_] + [(pl_ + "x", fl_, sl_)]); pairs.append((base, v9)); kinds.append("add")
         # command edits that only change INNER white space (still another command: quoting, line structure)
         inner = st["cmd"].strip()
         for old_ws, new_ws in ((" ", "  "), (" ", "\t"), (" ", "\n"), ("\n", " ")):
